@@ -3,7 +3,11 @@
 /verif/seeded/Cxx-V/ with meta.json (property, what it needs, what was run, confirmation, detection)."""
 import glob, json, os, re, shutil, sys
 pid, v = sys.argv[1], sys.argv[2]
-src = '/tmp/seed-%s/SEED/%s' % (pid, v)
+# round-2 seeds are called A2/B2 and live in /tmp/seed2-Cxx/SEED/{A,B}
+if v.endswith('2'):
+    src = '/tmp/seed2-%s/SEED/%s' % (pid, v[:-1])
+else:
+    src = '/tmp/seed-%s/SEED/%s' % (pid, v)
 dst = '/verif/seeded/%s-%s' % (pid, v)
 os.makedirs(dst, exist_ok=True)
 for f in os.listdir(src):
@@ -13,7 +17,7 @@ readme = open(os.path.join(src, 'README.md')).read()
 conf = ''
 for lg in glob.glob('/var/tmp/confirm*.log'):
     for line in open(lg):
-        if line.startswith('RESULT %s/%s ' % (pid, v)):
+        if line.startswith('RESULT %s/%s ' % (pid, v)) or (v.endswith('2') and line.startswith('RESULT2 %s/%s ' % (pid, v[:-1]))):
             conf = line.strip()
 det = ''
 logs = sorted(glob.glob('/var/tmp/seedtest[1-9]*.log')) + ['/var/tmp/seedtest0.log']
@@ -33,7 +37,7 @@ meta = {
     'variant': v,
     'summary_and_what_it_needs_to_manifest': readme[:3000],
     'confirmed_by_orchestrator': conf,
-    'confirmation_procedure': 'tools/confirm_seed: in the scratch worktree /tmp/seed-%s (git worktree of /repo HEAD) apply patch.diff, rebuild extensions if a .pyx/.pxd/.h/.mako changed, run the 55 pinned tests, run the demo (must exit non-zero), revert, rebuild, run the demo again (must exit 0)' % pid,
+    'confirmation_procedure': 'tools/confirm_seed[2]: in the scratch worktree /tmp/seed[2]-%s (git worktree of /repo HEAD) apply patch.diff, rebuild extensions if a .pyx/.pxd/.h/.mako changed, run the 55 pinned tests, run the demo (must exit non-zero), revert, rebuild, run the demo again (must exit 0)' % pid,
     'detection_by_check': det,
     'detection_procedure': 'tools/seedtest: ./check %s against a private copy of /repo with patch.diff applied (equivalent to git -C /repo apply; check; git checkout)' % pid,
 }
